@@ -218,6 +218,8 @@ fn pool(args: &Args) {
 
 const SEEDS: &[&str] = &[
     "", "a", "a: b", "- a", "[a: b]", "{a: b}", "{...", "[...", "a\n...\nb", "--- |\n a\n...\n", "? a\n: b\n", "a:\n- b\n- c\n", "&a [*a]", "&a a: *a", "%YAML 1.2\n---\na", "%TAG !e! tag:e:\n--- !e!x a", "a: |\n  b\n c", "a: \"b\\\n  c\"", "'a\n\n b'", "[a,\n]", "k: [a\n]\n", "{\"a\":1}", "{\"a\":\t1}", "- - - a", "-\ta", "a:\tb", "\ta", "a\r\nb\r", "a # c\n# d\nb", "!!str", "& a", "*", "|\n", ">\n", "|+\n", "--- >1-\n  a\n", "\u{FEFF}a", "a\0b", "{ a: [ b, { c: d } ], e: f }",
+    // nodes that consist of properties only (empty content under a tag or an anchor)
+    "a: !!str\nb:\nc: 1\n", "- !!str\n- &x\n- x\n", "- !!int\n- !!null\n- !local\n- !\n", "? !!str\n: !!str\n", "--- !!str\n--- &a\n--- !!map\n", "[!!str, &y , !!int ]\n", "{!!str : !!null , k: !t }\n",
 ];
 
 /// Convert TLC REPLAY lines (text as char arrays) into pool entries.
